@@ -177,6 +177,11 @@ class HarnessA:
         v = Viol(prop, oracle, sig, msg, self.env.seq, self.env.now, self.opi)
         if not any(x.key() == v.key() for x in self.viol):
             self.viol.append(v)
+        if oracle.split(":")[0] in ("put-failed", "get-raised", "cancel-raised", "reserve_put-raised", "reserve_get-raised") and ":falsy" not in oracle:
+            # a real node making this well-formed call would die with the exception: it would escape env.step() (C20)
+            v2 = Viol("C20", "call-crash:" + oracle, f"C20|call-crash:{oracle}|{self.label}|", msg, self.env.seq, self.env.now, self.opi)
+            if not any(x.key() == v2.key() for x in self.viol):
+                self.viol.append(v2)
         if stop:
             self.stopped = True
             raise Stop()
@@ -261,6 +266,8 @@ class HarnessA:
         self.gseq += 1
         t.granted_seq = self.gseq
         t.granted_at = env.now
+        if self.ad.timed is not None and not self.bind.broken:
+            self.scan_ready()           # availability that preceded this grant inside the same kernel event is logged first
         self.hist.append(("grant", env.seq, env.now, t.name, t.kind, immediate))
         # C05: nobody earlier in service order may still be pending
         for p in self.toks.values():
